@@ -131,7 +131,7 @@ Definition gf_blocks_spec (z : K) : K :=
   bsum (seq 0 nb) (fun L => bsum (seq 0 nb) (fun R =>
     bsum (seq 0 (dim L)) (fun n => bsum (seq 0 (dim R)) (fun m => block_term z L R n m)))).
 
-Hypothesis S : blocks_sound.
+Hypothesis BS : blocks_sound.
 
 Lemma ksorted_nodup l : ksorted l -> NoDup l.
 Proof.
@@ -184,15 +184,15 @@ Lemma selected_part L R : In (L, R) (g_cl K g) -> In (L, R) (g_cxr K g) ->
               part_wf K (mkpart K a b (g_E K g L) (g_E K g R) (g_W K g L) (g_W K g R)) /\
               cs_outer a = dim L /\ cs_inner a = dim R.
 Proof.
-  intros H1 H2. destruct (bs_cpart S L R H1) as [a [Ea [Wa [Oa Ia]]]]. destruct (bs_cxpart S L R H2) as [b [Eb [Wb [Ob Ib]]]].
-  destruct (bs_cl_range S L R H1) as [HL HR].
+  intros H1 H2. destruct (bs_cpart BS L R H1) as [a [Ea [Wa [Oa Ia]]]]. destruct (bs_cxpart BS L R H2) as [b [Eb [Wb [Ob Ib]]]].
+  destruct (bs_cl_range BS L R H1) as [HL HR].
   exists a, b. unfold mkpart_of. cbn [fst snd]. rewrite Ea, Eb. split; [reflexivity|]. split; [reflexivity|]. split; [reflexivity|].
   split; [|split; assumption].
   constructor; cbn [p_C p_CX p_wO p_eO p_wI p_eI]; try assumption; try lia.
-  - rewrite (bs_W S L HL). lia.
-  - rewrite (bs_E S L HL). lia.
-  - rewrite (bs_W S R HR). lia.
-  - rewrite (bs_E S R HR). lia.
+  - rewrite (bs_W BS L HL). lia.
+  - rewrite (bs_E BS L HL). lia.
+  - rewrite (bs_W BS R HR). lia.
+  - rewrite (bs_E BS R HR). lia.
 Qed.
 
 (** the quadruple sum restricted to one block pair: the part's Lehmann sum if the pair is selected, 0 otherwise *)
@@ -206,14 +206,14 @@ Proof.
     unfold part_at. rewrite E. cbn [snd]. unfold gf_part_spec. cbn [p_C p_CX p_wO p_eO p_wI p_eI]. rewrite Oa, Ia.
     apply BS_ext. intros n Hn. apply in_seq in Hn. apply BS_ext. intros m Hm. apply in_seq in Hm.
     unfold block_term.
-    rewrite (bs_C_restr S L R n m) by lia. rewrite (bs_CX_restr S L R n m) by lia.
+    rewrite (bs_C_restr BS L R n m) by lia. rewrite (bs_CX_restr BS L R n m) by lia.
     apply memb_in in M1. apply memb_in in M2. rewrite M1, M2, Ea, Eb. reflexivity.
   - apply BS_zero. intros n Hn. apply in_seq in Hn. apply BS_zero. intros m Hm. apply in_seq in Hm.
-    unfold block_term. rewrite (bs_CX_restr S L R n m) by lia. rewrite M2, Kdiv. ring.
+    unfold block_term. rewrite (bs_CX_restr BS L R n m) by lia. rewrite M2, Kdiv. ring.
   - apply BS_zero. intros n Hn. apply in_seq in Hn. apply BS_zero. intros m Hm. apply in_seq in Hm.
-    unfold block_term. rewrite (bs_C_restr S L R n m) by lia. rewrite M1, Kdiv. ring.
+    unfold block_term. rewrite (bs_C_restr BS L R n m) by lia. rewrite M1, Kdiv. ring.
   - apply BS_zero. intros n Hn. apply in_seq in Hn. apply BS_zero. intros m Hm. apply in_seq in Hm.
-    unfold block_term. rewrite (bs_C_restr S L R n m) by lia. rewrite M1, Kdiv. ring.
+    unfold block_term. rewrite (bs_C_restr BS L R n m) by lia. rewrite M1, Kdiv. ring.
 Qed.
 
 Lemma all_some_mkpart (sel : list (nat * nat)) :
@@ -228,10 +228,10 @@ Qed.
 Theorem gf_blocks_sum fixed lenient z parts :
   gf_compute K NO fixed lenient T g = WDone parts -> gf_value K NO parts z = gf_blocks_spec z.
 Proof.
-  unfold gf_compute. rewrite (gf_prepare_spec g (bs_cl_sorted S) (bs_cxr_sorted S)).
+  unfold gf_compute. rewrite (gf_prepare_spec g (bs_cl_sorted BS) (bs_cxr_sorted BS)).
   set (sel := filter (fun lr => g_ret K g (fst lr) || g_ret K g (snd lr)) (stripes_spec (g_cl K g) (g_cxr K g))).
   assert (Esel : sel = stripes_spec (g_cl K g) (g_cxr K g)).
-  { unfold sel. apply forallb_filter_id. apply forallb_forall. intros lr _. rewrite (bs_retained S). reflexivity. }
+  { unfold sel. apply forallb_filter_id. apply forallb_forall. intros lr _. rewrite (bs_retained BS). reflexivity. }
   assert (Hsel : forall lr, In lr sel -> In lr (g_cl K g) /\ In lr (g_cxr K g)).
   { intros [L R] H. rewrite Esel in H. apply in_stripes_spec in H. exact H. }
   rewrite (all_some_mkpart sel Hsel). intros E.
@@ -244,8 +244,8 @@ Proof.
   - unfold gf_blocks_spec. apply BS_ext. intros L HL. apply in_seq in HL. apply BS_ext. intros R HR. apply in_seq in HR.
     rewrite (block_pair_sum z L R) by lia. fold (memb (L, R) (g_cxr K g)).
     destruct (memb (L, R) (g_cl K g)); destruct (memb (L, R) (g_cxr K g)); reflexivity.
-  - apply ksorted_nodup. exact (bs_cl_sorted S).
-  - intros [L R] H. exact (bs_cl_range S L R H).
+  - apply ksorted_nodup. exact (bs_cl_sorted BS).
+  - intros [L R] H. exact (bs_cl_range BS L R H).
 Qed.
 
 End Full.
